@@ -484,6 +484,10 @@ type stmObj struct {
 	offs   int
 }
 
+// maxObjStmObjects is the largest number of objects the reader accepts in one
+// object stream.  The writer never puts more into one.
+const maxObjStmObjects = 10000
+
 func getObjStm(r Getter, stream *Stream, getInt getIntFn, enc *encryptInfo) (_ *objStm, err error) {
 	defer func() {
 		if err != nil {
@@ -492,7 +496,7 @@ func getObjStm(r Getter, stream *Stream, getInt getIntFn, enc *encryptInfo) (_ *
 	}()
 
 	N, ok := stream.Dict["N"].(Integer)
-	if !ok || N < 0 || N > 10000 {
+	if !ok || N < 0 || N > maxObjStmObjects {
 		return nil, &MalformedFileError{Err: errors.New("no valid /N")}
 	}
 	n := int(N)
